@@ -142,11 +142,11 @@ def run(ctx):
                 last = out.strip().split("\n")[-1] if out.strip() else ""
                 if rc != 0 or not last.endswith("invalid 0"):
                     ctx.tie_broken("corpus-validity:" + f, "corpus file contains a VirtualService the real validator rejects:\n" + out[-2000:])
-    ctx.diff_stream("routes", ctx.n(5000, 60000), oracle=oracle, nontrivial=nontrivial)
-    ctx.diff_stream("requests", ctx.n(6000, 80000), oracle=oracle, nontrivial=nontrivial)
+    ctx.diff_stream("routes", ctx.n(5000, 150000), oracle=oracle, nontrivial=nontrivial)
+    ctx.diff_stream("requests", ctx.n(6000, 200000), oracle=oracle, nontrivial=nontrivial)
     if HAVE_VHOSTS:
-        ctx.diff_stream("vhosts", ctx.n(4000, 40000), oracle=oracle, nontrivial=nontrivial)
-        ctx.diff_stream("rds", ctx.n(1500, 20000), oracle=oracle, nontrivial=nontrivial)
+        ctx.diff_stream("vhosts", ctx.n(4000, 100000), oracle=oracle, nontrivial=nontrivial)
+        ctx.diff_stream("rds", ctx.n(1500, 25000), oracle=oracle, nontrivial=nontrivial)
     # witnesses of the known findings (corpus only): each must still reproduce, as KNOWN-FINDING
     ctx.diff_stream("known-requests", 0, oracle=oracle, nontrivial=nontrivial)
     if HAVE_VHOSTS:
